@@ -106,6 +106,9 @@ pub struct SimConsole {
     pending: [Vec<u8>; 2],
 }
 
+/// upper bound of the records one legitimate statement can write (a full 1 MiB dump), with margin
+pub const MAX_RECORDS_PER_STATEMENT: u64 = 1_300_000;
+
 /// Payload used to stop a run that the simulator has proved will never end (EOF spin)
 pub struct SimSpin;
 
@@ -170,12 +173,13 @@ pub fn regs_of(vm: &VM) -> [u16; 14] {
 impl Console for SimConsole {
     fn emit(&mut self, module: &'static str, line: u32, text: &str) {
         let origin = if module == "main_stub" { Origin::Main } else { origin_of(module) };
-        // one print statement may legitimately dump the whole 1 MiB (1 048 576 byte records plus
-        // 65 536 row ends); more output than that without a single instruction or input line in
-        // between is output without progress: stop the run, the oracle sees no proper end
+        // one print statement may legitimately dump the whole 1 MiB (1 048 576 byte records, a
+        // separator record every 8 bytes and a row end every 16: 1 245 184 records); more output
+        // than that without a single instruction or input line in between is output without
+        // progress: stop the run, the oracle sees no proper end
         // (before the record is logged, so that records and raw output stay in step)
         self.recs_since_progress += 1;
-        if self.recs_since_progress > 1_200_000 {
+        if self.recs_since_progress > crate::world::MAX_RECORDS_PER_STATEMENT {
             std::panic::resume_unwind(Box::new(SimSpin));
         }
         // a memory guard, not a verdict: very long histories end as "out of fuel"
@@ -424,6 +428,11 @@ fn warmup_scenario() -> Scenario {
 
 /// Execute on a fresh thread with the scenario's stack size (fresh thread-locals per run).
 pub fn run_cli(scn: &Scenario) -> History {
+    run_cli_cpu(scn).0
+}
+
+/// the same, plus the CPU time the run's own thread used (microseconds; machine load does not count)
+pub fn run_cli_cpu(scn: &Scenario) -> (History, u64) {
     let scn2 = scn.clone();
     let h = std::thread::Builder::new()
         .stack_size(scn.stack_kib.max(64) * 1024)
@@ -431,7 +440,9 @@ pub fn run_cli(scn: &Scenario) -> History {
             if scn2.warm_thread {
                 let _ = run_here(&warmup_scenario(), None);
             }
-            run_here(&scn2, None).0
+            let t0 = crate::c15::thread_cpu_us();
+            let h = run_here(&scn2, None).0;
+            (h, crate::c15::thread_cpu_us().saturating_sub(t0))
         })
         .expect("spawn")
         .join();
